@@ -1,5 +1,6 @@
 import Driver.Util
 import AgModel.Model.BlockProducer
+import AgModel.Model.ProducerLoop
 /-! Driver `drv_bp`: replays the op lines of `harness/src/bin/bp.rs` on `AgModel.BlockProducer`.
 
     case <k> <tag>                                   -> case <k>
@@ -9,6 +10,9 @@ import AgModel.Model.BlockProducer
                                                                    | none <status>
     end                                              -> block done slices <n> parent <slot> <hash> hash <id> txs <n>
                                                       | block <status> slices <n>
+    win <me> <nval> <w> <eq> al <-|s h> pf <-|s h> pv <-|h> fin <0|1>   -> ok      (window inputs; leader(slot) = slot / W % nval)
+    wend                                             -> window <verdict> <n> [<slot> <hash> <pslot> <phash>]*
+                                                        (`Loop.produceWindow` on the window inputs and the `slice` inputs / `end` hashes since `win`)
     (anything else)                                  -> ok
 -/
 open AgModel.BlockProducer Driver
@@ -21,18 +25,44 @@ structure St where
   nextRoot : Nat := 1
   nslices : Nat := 0
   ntxs : Nat := 0
+  /-- window replay: (me, nval, w, eq, first-slot inputs) -/
+  win : Option (Nat × Nat × Nat × Bool × FirstSlotIn) := none
+  curIns : List SliceIn := []
+  wblocks : List Loop.BlockIn := []
 
 def b01 (b : Bool) : String := if b then "1" else "0"
 def idsHash (txs : List Tx) : Nat := txs.foldl (fun h t => (h * 31 + t.id + 1) % 1000000007) 7
 def statusStr : Status → String
   | .running => "running" | .done => "done" | .blocked => "blocked" | .panicked => "panic"
 
+def optPair : List String → Option (Nat × Nat) × List String
+  | "-" :: r => (none, r)
+  | a :: b :: r => (some (nat! a, nat! b), r)
+  | r => (none, r)
+def verdictStr : Loop.Verdict → String
+  | .notLeader => "notleader" | .skip => "skip" | .waiting => "waiting" | .stuck => "stuck" | .complete => "complete"
+
 def bpStep (st : St) (ws : List String) : St × List String :=
   match ws with
   | "case" :: k :: _ => ({}, [s!"case {k}"])
   | ["begin", mode, slot, pslot, phash, eq, maxid] =>
     let c : Cfg := ⟨if mode == "ready" then .ready else .notReady, nat! slot, (nat! pslot, nat! phash), eq == "1"⟩
-    ({ st with cfg := c, ps := init c, nextTx := 0, nextHash := nat! maxid + 1, nslices := 0, ntxs := 0 }, ["ok"])
+    ({ st with cfg := c, ps := init c, nextTx := 0, nextHash := nat! maxid + 1, nslices := 0, ntxs := 0, curIns := [] }, ["ok"])
+  | "win" :: me :: n :: w :: eq :: "al" :: rest =>
+    let (al, rest) := optPair rest
+    let (pf, rest) := optPair (rest.drop 1)
+    let (pv, fin) : Option Nat × Bool := match rest.drop 1 with
+      | "-" :: _ :: f :: _ => (none, f == "1")
+      | h :: _ :: f :: _ => (some (nat! h), f == "1")
+      | _ => (none, false)
+    ({ st with win := some (nat! me, nat! n, nat! w, eq == "1", ⟨false, al, pf, pv, fin⟩), curIns := [], wblocks := [] }, ["ok"])
+  | ["wend"] =>
+    match st.win with
+    | none => (st, ["window none"])
+    | some (me, n, w, eq, fi) =>
+      let r := Loop.produceWindow (fun slot => slot / Loop.W % n) me w ⟨fi, eq, st.wblocks⟩
+      let bl := r.blocks.map (fun b => s!" {b.slot} {b.hash} {b.parent.1} {b.parent.2}")
+      ({ st with win := none, wblocks := [], curIns := [] }, [s!"window {verdictStr r.verdict} {r.blocks.length}{String.join bl}"])
   | "slice" :: _k :: "dl" :: dl :: "zl" :: zl :: "pr" :: rest =>
     let (pr, rest) : Option (Nat × Nat) × List String := match rest with
       | "-" :: r => (none, r)
@@ -42,7 +72,7 @@ def bpStep (st : St) (ws : List String) : St × List String :=
     let txs : List Tx := (List.range lens.length).zipWith (fun i l => ⟨st.nextTx + i, l⟩) lens
     let si : SliceIn := ⟨txs, dl == "1", zl == "1", pr⟩
     let (ps', outs) := step st.cfg st.ps si
-    let st := { st with ps := ps', nextTx := st.nextTx + lens.length }
+    let st := { st with ps := ps', nextTx := st.nextTx + lens.length, curIns := st.curIns ++ [si] }
     match outs with
     | o :: _ =>
       let par := match o.payload.parent with | some p => s!"{p.1} {p.2}" | none => "-"
@@ -52,7 +82,8 @@ def bpStep (st : St) (ws : List String) : St × List String :=
   | ["end"] =>
     let done := st.ps.status == .done
     let h := if done then toString st.nextHash else "-"
-    ({ st with nextHash := if done then st.nextHash + 1 else st.nextHash },
+    ({ st with nextHash := if done then st.nextHash + 1 else st.nextHash,
+               wblocks := st.wblocks ++ [⟨st.curIns, if done then st.nextHash else 0⟩], curIns := [] },
      [if done then s!"block done slices {st.nslices} parent {st.ps.parent.1} {st.ps.parent.2} hash {h} txs {st.ntxs}"
       else s!"block {statusStr st.ps.status} slices {st.nslices}"])
   | _ => (st, ["ok"])
